@@ -287,7 +287,7 @@ def xz_faults(ctx, D, lz, bases, table, cat, start=0, cli=None, heavy=False):
                     cli['jobs'].append((bytes(cut), orig, "xz:trunc:%s" % f, J.last_adm))
         # ---------------- thorough: random multi-byte damage (property only: never success with other data)
         if heavy:
-            for t in range(3000):
+            for t in range(20000):
                 buf = bytearray(data)
                 kind = rng.choice(("overwrite", "insert", "delete"))
                 p = rng.randrange(len(buf)); n = rng.randrange(1, 9)
